@@ -190,6 +190,8 @@ class C20(fw.Prop):
             "order/const/function/control-flow edges, metadata incl. non-ASCII and nested values, inserted "
             "sub-HUGRs), optionally reloaded from their JSON, each rendered under 2-3 of the 6 "
             "palette x qualify_op_name configurations; the DOT source is parsed into the abstract tree.  "
+            "a third of the HUGRs are then mutated (leaf nodes deleted, "
+            "new nodes added so that freed indices are reused and children lists leave index order).  "
             "non-trivial = the HUGR has a nested container (cluster inside a cluster) and at least one "
             "non-value link (order/const/function/control-flow)")
     trusted = ["harness/props/c20.py: line-oriented parser of the DOT text the graphviz package emits "
@@ -205,6 +207,7 @@ class C20(fw.Prop):
             seed = rng.randrange(1 << 30)
             r = rng.random()
             cases.append({"seed": seed, "root": None, "reload": r < 0.25,
+                          "mutate": rng.randint(1, 3) if 0.25 <= r < 0.55 else 0,
                           "cfgs": [0] + rng.sample(range(1, 6), 2 if tier == "quick" else 3)})
         return cases
 
@@ -216,13 +219,18 @@ class C20(fw.Prop):
             {"prog": "order_reload", "reload": True, "cfgs": [0, 2]},           # D11: reloaded HUGR with an order edge
             {"prog": "divmod_partial", "reload": False, "cfgs": [0, 1]},        # D7: unused last output still gets a cell
             {"prog": "divmod_partial", "reload": True, "cfgs": [0]},
+            {"prog": "index_reuse", "reload": False, "cfgs": [0, 4]},          # children not in index order
         ]
 
     def build(self, case):
         if "prog" in case:
             return named_program(case["prog"])
         p = progs.gen_program(random.Random(case["seed"]), case.get("root"))
-        return progs.run(p).hugr, p
+        h = progs.run(p).hugr
+        if case.get("mutate"):
+            if not mutate(h, random.Random(case["seed"] + 17), case["mutate"]):
+                h = progs.run(p).hugr          # the store left dangling links (C04's concern): draw it unmutated
+        return h, p
 
     def observe(self, case, ctx):
         from hugr.hugr import Hugr
@@ -348,7 +356,7 @@ class C20(fw.Prop):
                 yield {**case, "seed": case["seed"] + 1 + k, "cfgs": list(range(6))}
 
     def distribution(self, cases, observations):
-        d = {"reloaded": 0, "nodes": [], "links_by_kind": {}, "render_errors": 0, "stmt_kinds": {}}
+        d = {"reloaded": 0, "mutated": sum(1 for c in cases if c.get("mutate")), "nodes": [], "links_by_kind": {}, "render_errors": 0, "stmt_kinds": {}}
         for c, o in zip(cases, observations):
             d["reloaded"] += bool(c.get("reload"))
             if "view" not in o:
@@ -363,6 +371,33 @@ class C20(fw.Prop):
         ns = sorted(d["nodes"])
         d["nodes"] = {"min": ns[0], "median": ns[len(ns) // 2], "max": ns[-1]} if ns else {}
         return d
+
+
+def mutate(h, rng, k):
+    """delete leaf nodes and add new ones (free indices are reused, so children lists are no longer in
+    index order); returns False if the store is left with a link to a dead node"""
+    from hugr import ops, tys
+    for _ in range(k):
+        leaves = [n for n in h if h[n].parent is not None and not h.children(n)
+                  and type(h[n].op).__name__ not in ("Input", "Output", "ExitBlock")]
+        if not leaves:
+            break
+        n = rng.choice(leaves)
+        p = h[n].parent
+        try:
+            h.delete_node(n)
+        except Exception:
+            return False           # the store's own defect (C04), not the renderer's
+        if any(a.node.idx == n.idx or b.node.idx == n.idx for a, b in h.links()):
+            return False           # dangling link left behind (C04)
+        parents = [p] + [m for m in h if h.children(m) and type(h[m].op).__name__ in ("DFG", "FuncDefn", "Case", "TailLoop", "DataflowBlock")]
+        par = rng.choice(parents)
+        new = h.add_node(ops.Custom("mut", tys.FunctionType([tys.Bool], [tys.Bool]), extension="verif.ext"), par, 1)
+        tgt = [m for m in h.children(par) if m != new and type(h[m].op).__name__ != "Input"]
+        if tgt and rng.random() < 0.7:
+            h.add_order_link(new, rng.choice(tgt))
+    live = {n.idx for n in h}
+    return all(s.node.idx in live and t.node.idx in live for s, t in h.links())
 
 
 def named_program(name):
@@ -404,6 +439,16 @@ def named_program(name):
             r = inner.add_op(ops.Noop(), dm[0])
             inner.set_outputs(r)
         d.set_outputs(inner)
+        return d.hugr, name
+    if name == "index_reuse":
+        d = Dfg(tys.Bool)
+        (b,) = d.inputs()
+        first = d.add_op(ops.Noop(), b)
+        second = d.add_op(ops.Noop(), first)
+        d.hugr.delete_node(first)
+        third = d.add_op(ops.Noop(), b)
+        d.hugr.add_link(third.out(0), second.inp(0))
+        d.set_outputs(second)
         return d.hugr, name
     raise ValueError(name)
 
